@@ -98,7 +98,17 @@ func init() {
 			w := Generate(c.Tape, tierProfile(profC04, c.Tier))
 			c.Sample = sample(w)
 			ex := Eval(w)
-			inc := RunInc(w, c.Tape, nil, 0, IncOpts{KillAt: -1, Strategy: strategyOf(c.Tape), Trace: c.Trace})
+			var root *simrt.Inode
+			nextIno := 0
+			if c.Tape.Choose(simrt.StGen, 4, 0) == 1 {
+				// some outputs are already there (complete tasks, reference bytes):
+				// the result must still be the same function of graph and inputs
+				var pre map[string][]byte
+				root, nextIno, pre = preplaceMap(c, w, ex, false)
+				ex = EvalWith(w, pre)
+				c.Sample = fmt.Sprintf("pre-existing %v: %s", keysOf(pre), c.Sample)
+			}
+			inc := RunInc(w, c.Tape, root, nextIno, IncOpts{KillAt: -1, Strategy: strategyOf(c.Tape), Trace: c.Trace})
 			c.Absorb(inc)
 			return flowOracle(inc, ex)
 		}})
